@@ -519,6 +519,21 @@ def polymorphism():
     return out
 
 
+def recursive_main():
+    """`main` called like any other definition (the checker accepts it): in tail position, under an operator, through a helper,
+    from a closure, as a let-bound value and as a constructor argument.  fun2core compiles `main` without a continuation
+    parameter (its body ends in `exit`) while every call passes one - open finding, listed by these inputs."""
+    bodies = {
+        'direct': ("", "if a <= 0 { b } else { println_i64(a); main(a - 1, b + a) }"),
+        'non-tail': ("", "if a <= 0 { b } else { 1 + main(a - 1, b) }"),
+        'via-helper': ("def helper(x: i64, y: i64): i64 { if x == 0 { y } else { main(x - 1, y + 2) } }\n", "if a <= 0 { b } else { print_i64(a); helper(a, b) }"),
+        'in-closure': ("", "if a <= 0 { b } else { (new { apply(x) => main(x - 1, b + 1) }).apply[i64, i64](a) }"),
+        'let-bound': ("", "if a <= 0 { b } else { let r: i64 = main(a - 1, b); println_i64(r); r * 2 }"),
+        'constructor-argument': ("", "if a <= 0 { b } else { Cons(main(a - 1, b + 3), Nil).case[i64] { Nil => 0, Cons(h, t) => h + 5 } }"),
+    }
+    return [{'name': f"recursive-main/{k}", 'src': DECLS + HELPERS + d + f"def main(a: i64, b: i64): i64 {{ {b} }}\n"} for k, (d, b) in bodies.items()]
+
+
 def all_programs(tier='quick'):
     ps = name_reuse(("v", "x0") if tier == 'quick' else ("v", "x0", "a0", "x")) + generated_names() + effects_in_arguments() + cut_shapes() + live_variables()
     return ps + fresh_clash() + lift_order() + positions_and_codata() + clause_orders_and_nested_types() + argument_permutations(tier) + scrutinee_reuse() + nested_labels() + covariable_arguments() + conditional_operand_effects() + goto_in_arguments() + program_level() + unit_and_noreturn() + polymorphism()
